@@ -78,6 +78,13 @@ Proof.
   apply objective_seq, (sum_red_seq Stat_iadd Stat_iadd_proper), Stat_seq_refl.
 Qed.
 
+Theorem fast_eval_ok :
+  (forall L default armor st, oqeq (hyper_value_fast L default armor st) (hyper_value_opt L default armor st)) /\
+  (forall L default armor sizes st, oqeq (squad_value_fast L default armor sizes st) (squad_value_opt L default armor sizes st)) /\
+  (forall L default armor st, oqeq (occ_value_fast L default armor st) (occ_value_opt L default armor st)) /\
+  (forall L default armor levels st, oqeq (link_value_fast L default armor levels st) (link_value_opt L default armor levels st)).
+Proof. split; [exact hyper_fast_ok|]. split; [exact squad_fast_ok|]. split; [exact occ_fast_ok|exact link_fast_ok]. Qed.
+
 (* reading a comparison made on the fast value back on the generated one *)
 Definition strictly_up (a b : option Q) : bool :=
   match a, b with Some v, Some v' => negb (qle v 0) && negb (qle v' v) | _, _ => false end.
